@@ -99,8 +99,8 @@ def _edit_ops(rng, cfg, state, f=None, inflight_bias=False):
         f = rng.randrange(len(cfg['files']))
     state['n'][f] = state['n'].get(f, 0) + 1
     hist = state.setdefault('hist', {}).setdefault(f, [])
-    if hist and rng.random() < 0.15:
-        enc = dict(rng.choice(hist))                       # undo: exactly an earlier content of this file
+    if hist and rng.random() < 0.2:
+        enc = dict(rng.choice(hist[-3:]))                  # undo: exactly a recent earlier content of this file
     else:
         text = _small_text(rng, f, state['n'][f])
         enc = _encode_variant(rng, text)
@@ -142,7 +142,20 @@ def make_stale(rng, tier):
     nops = rng.randint(6, 30 if tier == 'quick' else 60)
     while len(ops) < nops:
         r = rng.random()
-        if r < 0.5:
+        if r < 0.12:
+            # an editing session on one file (language server): parse, parse again, save, parse, undo/save, parse
+            base = _parse_op(rng, cfg, ['cache', 'cache+diff', 'cache+diff'])
+            for step in range(rng.randint(2, 5)):
+                ops.append(dict(base, t=[]))
+                if rng.random() < 0.5:
+                    ops.append(dict(base, t=[]))
+                if rng.random() < 0.25:
+                    ops.append(_parse_op(rng, cfg, modes))                 # some other file in between
+                if rng.random() < 0.2:
+                    ops.append({'k': 'clock', 'dt': rng.choice([1.0, 5.0, 700.0])})
+                ops.extend(_edit_ops(rng, cfg, state, f=base['f']))
+            ops.append(dict(base, t=[]))
+        elif r < 0.5:
             op = _parse_op(rng, cfg, modes)
             ops.append(op)
             if rng.random() < 0.3:            # an editor save likely to land inside this parse
